@@ -31,12 +31,26 @@ class _Instr:
     sim_kind = "?"
     sim_flavour = None
 
+    # value objects: elements configured with the same "eqkey" compare equal and hash alike (think of
+    # dataclasses with the same settings); they are still distinct objects, each with a service of its own
+    def __eq__(self, other):
+        k = getattr(self, "sim_eqkey", None)
+        if k is not None and isinstance(other, _Instr):
+            return k == getattr(other, "sim_eqkey", None)
+        return self is other
+
+    def __hash__(self):
+        k = getattr(self, "sim_eqkey", None)
+        return hash(("eq", k)) if k is not None else object.__hash__(self)
+
     def __len__(self):
         # container-like services (a pool of pending requests, of child pools ...) may well be empty,
         # i.e. falsy, right after construction
         return getattr(self, "sim_len", 1)
 
-    def _sim_init(self, name, hb, fail_init, fail_after, fail_kind, park=False, empty=False):
+    def _sim_init(self, name, hb, fail_init, fail_after, fail_kind, park=False, empty=False, eqkey=None):
+        if eqkey is not None:
+            self.sim_eqkey = eqkey
         self.sim_len = 0 if empty else 1
         self.sim_park = park
         self.sim_name = name
@@ -140,9 +154,9 @@ class _Instr:
 class _PoolBase(Pool, _Instr):
     sim_kind = "pool"
 
-    def __init__(self, name="pool", hb=0.5, fail_init=False, fail_after=None, fail_kind=None, park=False, empty=False):
+    def __init__(self, name="pool", hb=0.5, fail_init=False, fail_after=None, fail_kind=None, park=False, empty=False, eqkey=None):
         self._demand = 0.0
-        self._sim_init(name, hb, fail_init, fail_after, fail_kind, park, empty)
+        self._sim_init(name, hb, fail_init, fail_after, fail_kind, park, empty, eqkey)
 
     supply = 4.0
     utilisation = 0.75
@@ -161,17 +175,17 @@ class _PoolBase(Pool, _Instr):
 class _DecoBase(PoolDecorator, _Instr):
     sim_kind = "decorator"
 
-    def __init__(self, target, name="deco", hb=0.5, fail_init=False, fail_after=None, fail_kind=None, park=False, empty=False):
+    def __init__(self, target, name="deco", hb=0.5, fail_init=False, fail_after=None, fail_kind=None, park=False, empty=False, eqkey=None):
         super().__init__(target)
-        self._sim_init(name, hb, fail_init, fail_after, fail_kind, park, empty)
+        self._sim_init(name, hb, fail_init, fail_after, fail_kind, park, empty, eqkey)
 
 
 class _CtrlBase(Controller, _Instr):
     sim_kind = "controller"
 
-    def __init__(self, target, name="ctrl", hb=0.5, fail_init=False, fail_after=None, fail_kind=None, park=False, empty=False):
+    def __init__(self, target, name="ctrl", hb=0.5, fail_init=False, fail_after=None, fail_kind=None, park=False, empty=False, eqkey=None):
         super().__init__(target)
-        self._sim_init(name, hb, fail_init, fail_after, fail_kind, park, empty)
+        self._sim_init(name, hb, fail_init, fail_after, fail_kind, park, empty, eqkey)
 
 
 def _variants(base, prefix):
@@ -209,15 +223,28 @@ def _variants(base, prefix):
 
     ThreadV.__name__ = ThreadV.__qualname__ = prefix + "Thread"
     out["Thread"] = service(flavour=threading)(ThreadV)
+
+    class TwinV(base):
+        """Value objects: all instances compare equal and hash alike - from the first moment on, the key
+        is a class-level default (think of a dataclass with default settings)."""
+
+        sim_flavour = "asyncio"
+        sim_eqkey = "twin"
+
+        async def run(self):
+            return await self._async_run(asyncio.sleep, asyncio.CancelledError)
+
+    TwinV.__name__ = TwinV.__qualname__ = prefix + "Twin"
+    out["Twin"] = service(flavour=asyncio)(TwinV)
     return out
 
 
 _p = _variants(_PoolBase, "SimPool")
-SimPoolPlain, SimPoolTrio, SimPoolAsyncio, SimPoolThread = _p["Plain"], _p["Trio"], _p["Asyncio"], _p["Thread"]
+SimPoolPlain, SimPoolTrio, SimPoolAsyncio, SimPoolThread, SimPoolTwin = _p["Plain"], _p["Trio"], _p["Asyncio"], _p["Thread"], _p["Twin"]
 _d = _variants(_DecoBase, "SimDecorator")
-SimDecoratorPlain, SimDecoratorTrio, SimDecoratorAsyncio, SimDecoratorThread = _d["Plain"], _d["Trio"], _d["Asyncio"], _d["Thread"]
+SimDecoratorPlain, SimDecoratorTrio, SimDecoratorAsyncio, SimDecoratorThread, SimDecoratorTwin = _d["Plain"], _d["Trio"], _d["Asyncio"], _d["Thread"], _d["Twin"]
 _c = _variants(_CtrlBase, "SimController")
-SimControllerPlain, SimControllerTrio, SimControllerAsyncio, SimControllerThread = _c["Plain"], _c["Trio"], _c["Asyncio"], _c["Thread"]
+SimControllerPlain, SimControllerTrio, SimControllerAsyncio, SimControllerThread, SimControllerTwin = _c["Plain"], _c["Trio"], _c["Asyncio"], _c["Thread"], _c["Twin"]
 
 
 from cobald.daemon.plugins import constraints as _constraints  # noqa: E402
